@@ -233,22 +233,52 @@ static void run_rt(Stmt const& st, Ts const&... args)
 struct JCase
 {
   int k;
-  char const* tpl;
+  char const* tpl;     // the template as the real macro generates it
   char const* types;
   int lvl;
+  char const* names;   // the variable names as written at the call site, typed here independently of quill's macros
 };
 #define J1_FMT QUILL_GENERATE_NAMED_FORMAT_STRING("jone", alpha)
 #define J2_FMT QUILL_GENERATE_NAMED_FORMAT_STRING("jtwo", alpha, beta_2)
 #define J3_FMT QUILL_GENERATE_NAMED_FORMAT_STRING("jthree {{x}}", alpha, beta_2, gamma)
 #define J4_FMT QUILL_GENERATE_NAMED_FORMAT_STRING("jfour\nsecond line", alpha)
+#define J7_FMT QUILL_GENERATE_NAMED_FORMAT_STRING("\njlead\n\nmid", alpha)
 static JCase const kJCases[] = {
-  {0, QUILL_GENERATE_NAMED_FORMAT_STRING("jzero"), "", static_cast<int>(LogLevel::Info)},
-  {1, J1_FMT, "s", static_cast<int>(LogLevel::Info)},
-  {2, J2_FMT, "si", static_cast<int>(LogLevel::Warning)},
-  {3, J3_FMT, "sis", static_cast<int>(LogLevel::Error)},
-  {4, J4_FMT, "s", static_cast<int>(LogLevel::Info)},
-  {5, "direct {alpha:>6} and {beta_2:04}", "si", static_cast<int>(LogLevel::Info)},
-  {6, "{{\"k\": \"{alpha}\"}} json looking", "s", static_cast<int>(LogLevel::Info)},
+  {0, QUILL_GENERATE_NAMED_FORMAT_STRING("jzero"), "", static_cast<int>(LogLevel::Info), ""},
+  {1, J1_FMT, "s", static_cast<int>(LogLevel::Info), "alpha"},
+  {2, J2_FMT, "si", static_cast<int>(LogLevel::Warning), "alpha,beta_2"},
+  {3, J3_FMT, "sis", static_cast<int>(LogLevel::Error), "alpha,beta_2,gamma"},
+  {4, J4_FMT, "s", static_cast<int>(LogLevel::Info), "alpha"},
+  {5, "direct {alpha:>6} and {beta_2:04}", "si", static_cast<int>(LogLevel::Info), "alpha,beta_2"},
+  {6, "{{\"k\": \"{alpha}\"}} json looking", "s", static_cast<int>(LogLevel::Info), "alpha"},
+  {7, J7_FMT, "s", static_cast<int>(LogLevel::Info), "alpha"},
+  // every arity the LOGJ_ family supports (QUILL_GENERATE_NAMED_FORMAT_STRING_1 .. _26), case 100 + arity
+  {101, QUILL_GENERATE_NAMED_FORMAT_STRING("arity01", u01), "s", static_cast<int>(LogLevel::Info), "u01"},
+  {102, QUILL_GENERATE_NAMED_FORMAT_STRING("arity02", u01, u02), "ss", static_cast<int>(LogLevel::Info), "u01,u02"},
+  {103, QUILL_GENERATE_NAMED_FORMAT_STRING("arity03", u01, u02, u03), "sss", static_cast<int>(LogLevel::Info), "u01,u02,u03"},
+  {104, QUILL_GENERATE_NAMED_FORMAT_STRING("arity04", u01, u02, u03, u04), "ssss", static_cast<int>(LogLevel::Info), "u01,u02,u03,u04"},
+  {105, QUILL_GENERATE_NAMED_FORMAT_STRING("arity05", u01, u02, u03, u04, u05), "ssssi", static_cast<int>(LogLevel::Info), "u01,u02,u03,u04,u05"},
+  {106, QUILL_GENERATE_NAMED_FORMAT_STRING("arity06", u01, u02, u03, u04, u05, u06), "ssssis", static_cast<int>(LogLevel::Info), "u01,u02,u03,u04,u05,u06"},
+  {107, QUILL_GENERATE_NAMED_FORMAT_STRING("arity07", u01, u02, u03, u04, u05, u06, u07), "ssssiss", static_cast<int>(LogLevel::Info), "u01,u02,u03,u04,u05,u06,u07"},
+  {108, QUILL_GENERATE_NAMED_FORMAT_STRING("arity08", u01, u02, u03, u04, u05, u06, u07, u08), "ssssisss", static_cast<int>(LogLevel::Info), "u01,u02,u03,u04,u05,u06,u07,u08"},
+  {109, QUILL_GENERATE_NAMED_FORMAT_STRING("arity09", u01, u02, u03, u04, u05, u06, u07, u08, u09), "ssssissss", static_cast<int>(LogLevel::Info), "u01,u02,u03,u04,u05,u06,u07,u08,u09"},
+  {110, QUILL_GENERATE_NAMED_FORMAT_STRING("arity10", u01, u02, u03, u04, u05, u06, u07, u08, u09, u10), "ssssissssi", static_cast<int>(LogLevel::Info), "u01,u02,u03,u04,u05,u06,u07,u08,u09,u10"},
+  {111, QUILL_GENERATE_NAMED_FORMAT_STRING("arity11", u01, u02, u03, u04, u05, u06, u07, u08, u09, u10, u11), "ssssissssis", static_cast<int>(LogLevel::Info), "u01,u02,u03,u04,u05,u06,u07,u08,u09,u10,u11"},
+  {112, QUILL_GENERATE_NAMED_FORMAT_STRING("arity12", u01, u02, u03, u04, u05, u06, u07, u08, u09, u10, u11, u12), "ssssissssiss", static_cast<int>(LogLevel::Info), "u01,u02,u03,u04,u05,u06,u07,u08,u09,u10,u11,u12"},
+  {113, QUILL_GENERATE_NAMED_FORMAT_STRING("arity13", u01, u02, u03, u04, u05, u06, u07, u08, u09, u10, u11, u12, u13), "ssssissssisss", static_cast<int>(LogLevel::Info), "u01,u02,u03,u04,u05,u06,u07,u08,u09,u10,u11,u12,u13"},
+  {114, QUILL_GENERATE_NAMED_FORMAT_STRING("arity14", u01, u02, u03, u04, u05, u06, u07, u08, u09, u10, u11, u12, u13, u14), "ssssissssissss", static_cast<int>(LogLevel::Info), "u01,u02,u03,u04,u05,u06,u07,u08,u09,u10,u11,u12,u13,u14"},
+  {115, QUILL_GENERATE_NAMED_FORMAT_STRING("arity15", u01, u02, u03, u04, u05, u06, u07, u08, u09, u10, u11, u12, u13, u14, u15), "ssssissssissssi", static_cast<int>(LogLevel::Info), "u01,u02,u03,u04,u05,u06,u07,u08,u09,u10,u11,u12,u13,u14,u15"},
+  {116, QUILL_GENERATE_NAMED_FORMAT_STRING("arity16", u01, u02, u03, u04, u05, u06, u07, u08, u09, u10, u11, u12, u13, u14, u15, u16), "ssssissssissssis", static_cast<int>(LogLevel::Info), "u01,u02,u03,u04,u05,u06,u07,u08,u09,u10,u11,u12,u13,u14,u15,u16"},
+  {117, QUILL_GENERATE_NAMED_FORMAT_STRING("arity17", u01, u02, u03, u04, u05, u06, u07, u08, u09, u10, u11, u12, u13, u14, u15, u16, u17), "ssssissssissssiss", static_cast<int>(LogLevel::Info), "u01,u02,u03,u04,u05,u06,u07,u08,u09,u10,u11,u12,u13,u14,u15,u16,u17"},
+  {118, QUILL_GENERATE_NAMED_FORMAT_STRING("arity18", u01, u02, u03, u04, u05, u06, u07, u08, u09, u10, u11, u12, u13, u14, u15, u16, u17, u18), "ssssissssissssisss", static_cast<int>(LogLevel::Info), "u01,u02,u03,u04,u05,u06,u07,u08,u09,u10,u11,u12,u13,u14,u15,u16,u17,u18"},
+  {119, QUILL_GENERATE_NAMED_FORMAT_STRING("arity19", u01, u02, u03, u04, u05, u06, u07, u08, u09, u10, u11, u12, u13, u14, u15, u16, u17, u18, u19), "ssssissssissssissss", static_cast<int>(LogLevel::Info), "u01,u02,u03,u04,u05,u06,u07,u08,u09,u10,u11,u12,u13,u14,u15,u16,u17,u18,u19"},
+  {120, QUILL_GENERATE_NAMED_FORMAT_STRING("arity20", u01, u02, u03, u04, u05, u06, u07, u08, u09, u10, u11, u12, u13, u14, u15, u16, u17, u18, u19, u20), "ssssissssissssissssi", static_cast<int>(LogLevel::Info), "u01,u02,u03,u04,u05,u06,u07,u08,u09,u10,u11,u12,u13,u14,u15,u16,u17,u18,u19,u20"},
+  {121, QUILL_GENERATE_NAMED_FORMAT_STRING("arity21", u01, u02, u03, u04, u05, u06, u07, u08, u09, u10, u11, u12, u13, u14, u15, u16, u17, u18, u19, u20, u21), "ssssissssissssissssis", static_cast<int>(LogLevel::Info), "u01,u02,u03,u04,u05,u06,u07,u08,u09,u10,u11,u12,u13,u14,u15,u16,u17,u18,u19,u20,u21"},
+  {122, QUILL_GENERATE_NAMED_FORMAT_STRING("arity22", u01, u02, u03, u04, u05, u06, u07, u08, u09, u10, u11, u12, u13, u14, u15, u16, u17, u18, u19, u20, u21, u22), "ssssissssissssissssiss", static_cast<int>(LogLevel::Info), "u01,u02,u03,u04,u05,u06,u07,u08,u09,u10,u11,u12,u13,u14,u15,u16,u17,u18,u19,u20,u21,u22"},
+  {123, QUILL_GENERATE_NAMED_FORMAT_STRING("arity23", u01, u02, u03, u04, u05, u06, u07, u08, u09, u10, u11, u12, u13, u14, u15, u16, u17, u18, u19, u20, u21, u22, u23), "ssssissssissssissssisss", static_cast<int>(LogLevel::Info), "u01,u02,u03,u04,u05,u06,u07,u08,u09,u10,u11,u12,u13,u14,u15,u16,u17,u18,u19,u20,u21,u22,u23"},
+  {124, QUILL_GENERATE_NAMED_FORMAT_STRING("arity24", u01, u02, u03, u04, u05, u06, u07, u08, u09, u10, u11, u12, u13, u14, u15, u16, u17, u18, u19, u20, u21, u22, u23, u24), "ssssissssissssissssissss", static_cast<int>(LogLevel::Info), "u01,u02,u03,u04,u05,u06,u07,u08,u09,u10,u11,u12,u13,u14,u15,u16,u17,u18,u19,u20,u21,u22,u23,u24"},
+  {125, QUILL_GENERATE_NAMED_FORMAT_STRING("arity25", u01, u02, u03, u04, u05, u06, u07, u08, u09, u10, u11, u12, u13, u14, u15, u16, u17, u18, u19, u20, u21, u22, u23, u24, u25), "ssssissssissssissssissssi", static_cast<int>(LogLevel::Info), "u01,u02,u03,u04,u05,u06,u07,u08,u09,u10,u11,u12,u13,u14,u15,u16,u17,u18,u19,u20,u21,u22,u23,u24,u25"},
+  {126, QUILL_GENERATE_NAMED_FORMAT_STRING("arity26", u01, u02, u03, u04, u05, u06, u07, u08, u09, u10, u11, u12, u13, u14, u15, u16, u17, u18, u19, u20, u21, u22, u23, u24, u25, u26), "ssssissssissssissssissssis", static_cast<int>(LogLevel::Info), "u01,u02,u03,u04,u05,u06,u07,u08,u09,u10,u11,u12,u13,u14,u15,u16,u17,u18,u19,u20,u21,u22,u23,u24,u25,u26"},
 };
 
 static std::string base_name(std::string const& p)
@@ -263,6 +293,33 @@ static void run_j(Stmt const& st)
   long long beta_2 = 0;
   auto S = [&](size_t i) { return i < st.args.size() ? st.args[i].s : std::string{}; };
   auto I = [&](size_t i) { return i < st.args.size() ? st.args[i].i : 0ll; };
+  // variables of the arity statements: distinct names, position i is a long long when i % 5 == 0
+  std::string u01 = S(0);
+  std::string u02 = S(1);
+  std::string u03 = S(2);
+  std::string u04 = S(3);
+  long long u05 = I(4);
+  std::string u06 = S(5);
+  std::string u07 = S(6);
+  std::string u08 = S(7);
+  std::string u09 = S(8);
+  long long u10 = I(9);
+  std::string u11 = S(10);
+  std::string u12 = S(11);
+  std::string u13 = S(12);
+  std::string u14 = S(13);
+  long long u15 = I(14);
+  std::string u16 = S(15);
+  std::string u17 = S(16);
+  std::string u18 = S(17);
+  std::string u19 = S(18);
+  long long u20 = I(19);
+  std::string u21 = S(20);
+  std::string u22 = S(21);
+  std::string u23 = S(22);
+  std::string u24 = S(23);
+  long long u25 = I(24);
+  std::string u26 = S(25);
   bool ok = true;
   std::string text;
   std::vector<std::string> vals;
@@ -280,6 +337,33 @@ static void run_j(Stmt const& st)
   case 4: alpha = S(0); oracle(st, ok, text, vals, alpha); line = __LINE__; LOGJ_INFO(g_logger, "jfour\nsecond line", alpha); break;
   case 5: alpha = S(0); beta_2 = I(1); oracle(st, ok, text, vals, alpha, beta_2); line = __LINE__; LOG_INFO(g_logger, "direct {alpha:>6} and {beta_2:04}", alpha, beta_2); break;
   case 6: alpha = S(0); oracle(st, ok, text, vals, alpha); line = __LINE__; LOG_INFO(g_logger, "{{\"k\": \"{alpha}\"}} json looking", alpha); break;
+  case 7: alpha = S(0); oracle(st, ok, text, vals, alpha); line = __LINE__; LOGJ_INFO(g_logger, "\njlead\n\nmid", alpha); break;
+  case 101: oracle(st, ok, text, vals, u01); line = __LINE__; LOGJ_INFO(g_logger, "arity01", u01); break;
+  case 102: oracle(st, ok, text, vals, u01, u02); line = __LINE__; LOGJ_INFO(g_logger, "arity02", u01, u02); break;
+  case 103: oracle(st, ok, text, vals, u01, u02, u03); line = __LINE__; LOGJ_INFO(g_logger, "arity03", u01, u02, u03); break;
+  case 104: oracle(st, ok, text, vals, u01, u02, u03, u04); line = __LINE__; LOGJ_INFO(g_logger, "arity04", u01, u02, u03, u04); break;
+  case 105: oracle(st, ok, text, vals, u01, u02, u03, u04, u05); line = __LINE__; LOGJ_INFO(g_logger, "arity05", u01, u02, u03, u04, u05); break;
+  case 106: oracle(st, ok, text, vals, u01, u02, u03, u04, u05, u06); line = __LINE__; LOGJ_INFO(g_logger, "arity06", u01, u02, u03, u04, u05, u06); break;
+  case 107: oracle(st, ok, text, vals, u01, u02, u03, u04, u05, u06, u07); line = __LINE__; LOGJ_INFO(g_logger, "arity07", u01, u02, u03, u04, u05, u06, u07); break;
+  case 108: oracle(st, ok, text, vals, u01, u02, u03, u04, u05, u06, u07, u08); line = __LINE__; LOGJ_INFO(g_logger, "arity08", u01, u02, u03, u04, u05, u06, u07, u08); break;
+  case 109: oracle(st, ok, text, vals, u01, u02, u03, u04, u05, u06, u07, u08, u09); line = __LINE__; LOGJ_INFO(g_logger, "arity09", u01, u02, u03, u04, u05, u06, u07, u08, u09); break;
+  case 110: oracle(st, ok, text, vals, u01, u02, u03, u04, u05, u06, u07, u08, u09, u10); line = __LINE__; LOGJ_INFO(g_logger, "arity10", u01, u02, u03, u04, u05, u06, u07, u08, u09, u10); break;
+  case 111: oracle(st, ok, text, vals, u01, u02, u03, u04, u05, u06, u07, u08, u09, u10, u11); line = __LINE__; LOGJ_INFO(g_logger, "arity11", u01, u02, u03, u04, u05, u06, u07, u08, u09, u10, u11); break;
+  case 112: oracle(st, ok, text, vals, u01, u02, u03, u04, u05, u06, u07, u08, u09, u10, u11, u12); line = __LINE__; LOGJ_INFO(g_logger, "arity12", u01, u02, u03, u04, u05, u06, u07, u08, u09, u10, u11, u12); break;
+  case 113: oracle(st, ok, text, vals, u01, u02, u03, u04, u05, u06, u07, u08, u09, u10, u11, u12, u13); line = __LINE__; LOGJ_INFO(g_logger, "arity13", u01, u02, u03, u04, u05, u06, u07, u08, u09, u10, u11, u12, u13); break;
+  case 114: oracle(st, ok, text, vals, u01, u02, u03, u04, u05, u06, u07, u08, u09, u10, u11, u12, u13, u14); line = __LINE__; LOGJ_INFO(g_logger, "arity14", u01, u02, u03, u04, u05, u06, u07, u08, u09, u10, u11, u12, u13, u14); break;
+  case 115: oracle(st, ok, text, vals, u01, u02, u03, u04, u05, u06, u07, u08, u09, u10, u11, u12, u13, u14, u15); line = __LINE__; LOGJ_INFO(g_logger, "arity15", u01, u02, u03, u04, u05, u06, u07, u08, u09, u10, u11, u12, u13, u14, u15); break;
+  case 116: oracle(st, ok, text, vals, u01, u02, u03, u04, u05, u06, u07, u08, u09, u10, u11, u12, u13, u14, u15, u16); line = __LINE__; LOGJ_INFO(g_logger, "arity16", u01, u02, u03, u04, u05, u06, u07, u08, u09, u10, u11, u12, u13, u14, u15, u16); break;
+  case 117: oracle(st, ok, text, vals, u01, u02, u03, u04, u05, u06, u07, u08, u09, u10, u11, u12, u13, u14, u15, u16, u17); line = __LINE__; LOGJ_INFO(g_logger, "arity17", u01, u02, u03, u04, u05, u06, u07, u08, u09, u10, u11, u12, u13, u14, u15, u16, u17); break;
+  case 118: oracle(st, ok, text, vals, u01, u02, u03, u04, u05, u06, u07, u08, u09, u10, u11, u12, u13, u14, u15, u16, u17, u18); line = __LINE__; LOGJ_INFO(g_logger, "arity18", u01, u02, u03, u04, u05, u06, u07, u08, u09, u10, u11, u12, u13, u14, u15, u16, u17, u18); break;
+  case 119: oracle(st, ok, text, vals, u01, u02, u03, u04, u05, u06, u07, u08, u09, u10, u11, u12, u13, u14, u15, u16, u17, u18, u19); line = __LINE__; LOGJ_INFO(g_logger, "arity19", u01, u02, u03, u04, u05, u06, u07, u08, u09, u10, u11, u12, u13, u14, u15, u16, u17, u18, u19); break;
+  case 120: oracle(st, ok, text, vals, u01, u02, u03, u04, u05, u06, u07, u08, u09, u10, u11, u12, u13, u14, u15, u16, u17, u18, u19, u20); line = __LINE__; LOGJ_INFO(g_logger, "arity20", u01, u02, u03, u04, u05, u06, u07, u08, u09, u10, u11, u12, u13, u14, u15, u16, u17, u18, u19, u20); break;
+  case 121: oracle(st, ok, text, vals, u01, u02, u03, u04, u05, u06, u07, u08, u09, u10, u11, u12, u13, u14, u15, u16, u17, u18, u19, u20, u21); line = __LINE__; LOGJ_INFO(g_logger, "arity21", u01, u02, u03, u04, u05, u06, u07, u08, u09, u10, u11, u12, u13, u14, u15, u16, u17, u18, u19, u20, u21); break;
+  case 122: oracle(st, ok, text, vals, u01, u02, u03, u04, u05, u06, u07, u08, u09, u10, u11, u12, u13, u14, u15, u16, u17, u18, u19, u20, u21, u22); line = __LINE__; LOGJ_INFO(g_logger, "arity22", u01, u02, u03, u04, u05, u06, u07, u08, u09, u10, u11, u12, u13, u14, u15, u16, u17, u18, u19, u20, u21, u22); break;
+  case 123: oracle(st, ok, text, vals, u01, u02, u03, u04, u05, u06, u07, u08, u09, u10, u11, u12, u13, u14, u15, u16, u17, u18, u19, u20, u21, u22, u23); line = __LINE__; LOGJ_INFO(g_logger, "arity23", u01, u02, u03, u04, u05, u06, u07, u08, u09, u10, u11, u12, u13, u14, u15, u16, u17, u18, u19, u20, u21, u22, u23); break;
+  case 124: oracle(st, ok, text, vals, u01, u02, u03, u04, u05, u06, u07, u08, u09, u10, u11, u12, u13, u14, u15, u16, u17, u18, u19, u20, u21, u22, u23, u24); line = __LINE__; LOGJ_INFO(g_logger, "arity24", u01, u02, u03, u04, u05, u06, u07, u08, u09, u10, u11, u12, u13, u14, u15, u16, u17, u18, u19, u20, u21, u22, u23, u24); break;
+  case 125: oracle(st, ok, text, vals, u01, u02, u03, u04, u05, u06, u07, u08, u09, u10, u11, u12, u13, u14, u15, u16, u17, u18, u19, u20, u21, u22, u23, u24, u25); line = __LINE__; LOGJ_INFO(g_logger, "arity25", u01, u02, u03, u04, u05, u06, u07, u08, u09, u10, u11, u12, u13, u14, u15, u16, u17, u18, u19, u20, u21, u22, u23, u24, u25); break;
+  case 126: oracle(st, ok, text, vals, u01, u02, u03, u04, u05, u06, u07, u08, u09, u10, u11, u12, u13, u14, u15, u16, u17, u18, u19, u20, u21, u22, u23, u24, u25, u26); line = __LINE__; LOGJ_INFO(g_logger, "arity26", u01, u02, u03, u04, u05, u06, u07, u08, u09, u10, u11, u12, u13, u14, u15, u16, u17, u18, u19, u20, u21, u22, u23, u24, u25, u26); break;
   default: return;
   }
   drain();
@@ -307,7 +391,8 @@ static int logj_mode(char const* out)
   // constants of the implementation the check concretises value classes from
   std::fprintf(o, "{\"sep\":%s}\n", jq(QUILL_MAGIC_SEPARATOR).c_str());
   for (auto const& c : kJCases)
-    std::fprintf(o, "{\"k\":%d,\"tpl\":%s,\"types\":\"%s\",\"lvl\":%d}\n", c.k, jq(c.tpl).c_str(), c.types, c.lvl);
+    std::fprintf(o, "{\"k\":%d,\"tpl\":%s,\"types\":\"%s\",\"lvl\":%d,\"names\":\"%s\"}\n", c.k, jq(c.tpl).c_str(),
+                 c.types, c.lvl, c.names);
   std::fclose(o);
   return 0;
 }
@@ -355,8 +440,8 @@ static int e2e_mode(char const* script, char const* out, char const* jsonfile)
       else
       {
         st.jcase = std::stoi(tok[p++]);
-        st.lvl = kJCases[st.jcase].lvl;
-        st.tpl = kJCases[st.jcase].tpl;
+        for (auto const& c : kJCases)
+          if (c.k == st.jcase) { st.lvl = c.lvl; st.tpl = c.tpl; }
       }
       st.refpos = unhex(tok[p++]);
       size_t const k = std::stoul(tok[p++]);
